@@ -164,6 +164,13 @@ def corner_schemas():
                           T("cst", "uint16", presence="constant", const="77"),
                           T("zero", "char", length=0),
                           C("outer", [T("a", "int16"), C("inner", [T("x", "uint8"), T("y", "double")]), R("c", "cst"), T("z", "int64", offset="+5")]),
+                          S("s16", "uint16", [("b0", 0), ("b9", 9), ("b15", 15)]),
+                          S("s32", "uint32", [("b31", 31), ("b1", 1), ("b17", 17)]),
+                          S("s64", "uint64", [("lo", 0), ("hi", 63), ("mid", 33)]),
+                          E("e16", "uint16", [("A", 258), ("B", 65534)]),
+                          E("e32", "uint32", [("A", 16909060), ("B", 1)]),
+                          T("txt3", "char", length=3),
+                          T("opt16", "int16", presence="optional"),
                       ],
                       [
                           M("big0", [F("f0", "int16", offset="+2"), F("k", "cst"), F("f1", "outer", offset="+2"), F("f2", "float", offset="+1")],
@@ -180,6 +187,20 @@ def corner_schemas():
                              G("konly", "dim_8_32", [F("k", "cst")], [], [], block_length="+4"),
                              G("outer2", "dim_8_32", [F("a", "uint8")], [G("reserved_in", "dim_64_64", [], [], [], block_length="+3")], [D("t", "data8")])],
                             [D("tail", "data8")], block_length="+5"),
+                          # multi-byte members in *last* position of a block (the cursor accessors of a last field are
+                          # generated separately), and fields whose declared presence sbeppc overrides from the type
+                          M("big4", [F("a", "uint8"), F("sc", "s16", presence="constant"), F("nc", "Cnt32", presence="constant"), F("s", "s16")],
+                            [G("g", "dim_8_32", [F("x", "uint16"), F("s", "s32")]),
+                             G("h", "dim_8_32", [F("e", "e16")], [], [], block_length="+2"),
+                             G("i", "dim_64_64", [F("c", "outer")])],
+                            [D("d", "data8")]),
+                          M("big5", [F("x", "uint8"), F("e", "e32")],
+                            [G("g", "dim_8_32", [F("s", "s64")]),
+                             G("arr", "dim_8_32", [F("a", "uint8"), F("t", "txt3")]),
+                             G("o", "dim_8_32", [F("b", "uint8"), F("n", "opt16")], [], [D("t", "data8")]),
+                             G("f", "dim_8_32", [F("d", "double")])],
+                            [], block_length="+1"),
+                          M("big6", [F("s", "s64")]),
                       ]))
     # 3. tiny dimension types: uint8/uint8 dims, uint8 header blockLength, uint16 data length
     out.append(schema("tiny", "littleEndian", header("h8", bl=1, tid=1, sid=1, ver=1),
